@@ -89,6 +89,9 @@ class World:
 
         class SimClient(HttpBeaconClient):
             def get_task(self):
+                if world.kernel.current is not st["actor"] or st["actor"].kill_requested:
+                    # a superseded incarnation on its way out (it is stopped at its next seam call): not observed
+                    return super().get_task()
                 if st.get("pending_ret"):
                     # the loop came round to the next check-in although a handler's returned callback was never sent
                     cb, data = st["pending_ret"][0]
@@ -97,6 +100,12 @@ class World:
                                   f"#{st['tasks_received']}, the beacon loop went on to the next check-in without calling "
                                   f"send_callback for it")
                     st["pending_ret"] = []
+                if st.get("gets_this_life", 0) >= 1 and not st.get("slept_since_get"):
+                    world.violate("C19", "no_sleep_between_checkins",
+                                  f"client {k}: two consecutive check-ins without a sleep in between (every iteration of the "
+                                  f"beacon loop sleeps for one interval of the jitter band)")
+                st["gets_this_life"] = st.get("gets_this_life", 0) + 1
+                st["slept_since_get"] = False
                 st["phase"] = "get"
                 st["outgoing"] = ("get", world.snapshot_metadata(self), self.beacon_id)
                 t = super().get_task()
@@ -104,6 +113,8 @@ class World:
                 return t
 
             def send_callback(self, callback_id, data):
+                if world.kernel.current is not st["actor"] or st["actor"].kill_requested:
+                    return super().send_callback(callback_id, data)
                 item = (int(callback_id), bytes(data))
                 if item in st.get("pending_ret", []):
                     st["pending_ret"].remove(item)
@@ -205,6 +216,7 @@ class World:
         st["incarnations"] += 1
         st["metadata_snapshot"] = None
         st["pending_ret"] = []
+        st["gets_this_life"] = 0
         if reuse_object and st["obj"] is not None:
             # the operator runs the SAME client object again (same beacon id, possibly other host details): whatever the
             # object registered or cached during its first life is still there, and must not leak into what it sends now
@@ -241,6 +253,7 @@ class World:
         spec = next(s_ for s_ in self.plan["clients"] if s_["k"] == k)
         band = st["band"] or (spec["run"].get("sleeptime", self.cfg["sleeptime"]), spec["run"].get("jitter", self.cfg["jitter"]))
         st["sleeps"].append((self.kernel.now, seconds, band))
+        st["slept_since_get"] = True
         self.res.log.log("sleep", k, round(seconds * 1000, 3))
         sleeptime, jitter = band
         lo = sleeptime * (1 - jitter / 100.0)
